@@ -31,7 +31,7 @@ struct Gen {
     unsigned data_len(const GSlot &s, unsigned maxlen) {
         unsigned bs = kind_bs(s.kind), b = batch_of(s);
         unsigned n;
-        if (maxlen >= 300 && r.chance(1, 150)) return 1500 + r.below(9500);      // rarely a long single call (loop counters, many batches in one call)
+        if (maxlen >= 300 && r.chance(1, 150)) return r.chance(1, 4) ? 60000 + r.below(12000) : 1500 + r.below(9500);      // rarely a long single call (loop counters, many batches, more than 64 KiB)
         switch (r.below(14)) {
         case 0: n = 0; break;
         case 1: n = 1; break;
@@ -122,7 +122,7 @@ struct Gen {
     }
     void par(int s, unsigned nblocks, bool dec) {
         int k = g[s].kind; unsigned bs = kind_bs(k);
-        if (r.chance(1, 150)) nblocks = 100 + r.below(k == P128 ? 560 : 1200);   // rarely a long request
+        if (r.chance(1, 150)) nblocks = r.chance(1, 4) ? 4100 + r.below(400) : 100 + r.below(k == P128 ? 560 : 1200);   // rarely a long request (also more than 64 KiB)
         Op &o = emit(dec && k != PM ? OP_PDEC : OP_PENC, s); o.size = nblocks * bs; o.a = r.bytes(o.size); if (k == PM) o.b = r.bytes(o.size);
         if (r.chance(1, 3)) o.flags |= F_INPLACE;
     }
@@ -303,6 +303,7 @@ static inline Plan gen_stream(Rng rng) {
         Op tw, ct; bool have_tw = false, have_ct = false;
         if ((tweaked || kind == MCTR) && G.r.chance(1, 2)) { G.settweak(0, 2 + G.r.below(6)); tw = G.p.ops.back(); G.p.ops.pop_back(); have_tw = true; }
         if (pk > 0 || have_tw || G.r.chance(3, 4)) { G.setctr(0); ct = G.p.ops.back(); G.p.ops.pop_back(); have_ct = true; }
+        size_t packet_start = G.p.ops.size();
         for (int s = 0; s < nobj; ++s) {
             if (have_tw) { tw.slot = s; G.p.ops.push_back(tw); }
             if (have_ct) { ct.slot = s; ct.place = G.rand_place(); G.p.ops.push_back(ct); G.g[s].since_reset = 0; }
@@ -311,6 +312,12 @@ static inline Plan gen_stream(Rng rng) {
             unsigned done = 0; int frags = 0;
             while (done < total && frags < 40) { unsigned n = G.data_len(G.g[s], total - done); if (n == 0 && G.r.chance(2, 3)) n = 1 > total - done ? total - done : 1; G.enc(s, n); done += n; ++frags; }
             if (G.r.chance(1, 5)) G.enc(s, 0);
+        }
+        if (nobj == 2 && G.r.chance(1, 2)) {
+            // the two objects are used alternately: merge their calls of this packet, keeping each object's own order
+            std::vector<Op> a, b, m; for (size_t q = packet_start; q < G.p.ops.size(); ++q) (G.p.ops[q].slot == 0 ? a : b).push_back(G.p.ops[q]);
+            size_t ia = 0, ib = 0; while (ia < a.size() || ib < b.size()) { bool ta = ib >= b.size() || (ia < a.size() && G.r.chance(1, 2)); m.push_back(ta ? a[ia++] : b[ib++]); }
+            std::copy(m.begin(), m.end(), G.p.ops.begin() + packet_start);
         }
     }
     return G.p;
